@@ -513,6 +513,13 @@ func c26exec(op string) Result {
 					if t.kw {
 						name = "keyword"
 					}
+					// "<--" is `<-` `-` for the Go lexer (maximal munch), but `<` `--` for ReadMultiline's
+					// plus/minus pairing: its own, narrower key (a cut after any other '-' keeps the key ":-")
+					if t.tok == "-" && t.off >= 2 && string(ref.rw[t.off-2:t.off]) == "<-" && ref.ctx[t.off-2] == cxCode {
+						if pt := lastTokBefore(t.off); pt != nil && pt.tok == "<-" && pt.off == t.off-2 {
+							name = "arrow-minus"
+						}
+					}
 					viol("cut-mid-statement:"+name, fmt.Sprintf("chunk %d ends at offset %d after token %q which does not end a statement", ci, end, t.tok))
 				}
 			}
